@@ -110,6 +110,9 @@ def main():
         i = a.index("--tier"); tier = a[i + 1]; del a[i:i + 2]
     if "--keep" in a:
         a.remove("--keep"); keep = True
+    match = None
+    if "--match" in a:      # --all-seeded --match 'C0[1-4]i-': only the seeded changes whose directory name matches
+        i = a.index("--match"); match = re.compile(a[i + 1]); del a[i:i + 2]
     results = []
     global SHARED
     if a and a[0].startswith("--all-"):
@@ -127,7 +130,7 @@ def main():
         sd = os.path.join(V, "seeded")
         for d in sorted(os.listdir(sd)):
             mp = os.path.join(sd, d, "meta.json")
-            if os.path.exists(mp):
+            if os.path.exists(mp) and (match is None or match.search(d)):
                 m = json.load(open(mp))
                 # "masked_at_head": a later repair guards the same spot a second time, the change alone no longer
                 # breaks the property at HEAD - it is judged against the commit it was written for
